@@ -129,6 +129,14 @@ func canonTime(t time.Time) string {
 		return "0"
 	}
 	name, off := t.Zone()
+	// zone names come from file bytes: printable names stay readable, anything else (white space, control bytes) is shown
+	// in hex so that the line protocol cannot alter it
+	for _, ch := range []byte(name) {
+		if ch <= ' ' || ch >= 0x7f || ch == '/' {
+			name = "x" + hexs([]byte(name))
+			break
+		}
+	}
 	return fmt.Sprintf("%d/%s/%d", t.UnixNano(), name, off)
 }
 
